@@ -177,10 +177,12 @@ def cargo_build(harness, extra_env=None):
     with Lock("cargo-" + harness):
         if not os.path.exists(lock):
             sh(["cp", src, lock])
-        rc, out = sh(["cargo", "build", "--offline"], cwd=d, env=extra_env, timeout=7200)
+        env = {"CARGO_TARGET_DIR": TARGET}
+        env.update(extra_env or {})
+        rc, out = sh(["cargo", "build", "--offline"], cwd=d, env=env, timeout=7200)
         if rc != 0 and "Cargo.lock" in out:
             sh(["cp", src, lock])
-            rc, out = sh(["cargo", "build", "--offline"], cwd=d, env=extra_env, timeout=7200)
+            rc, out = sh(["cargo", "build", "--offline"], cwd=d, env=env, timeout=7200)
     return rc == 0, out
 
 
@@ -345,11 +347,16 @@ def load_known():
 # Standard steps
 # ---------------------------------------------------------------------------------------
 
-def step_extract(ctx):
-    """tie G: regenerate QuicModel/Generated/*.lean from /repo's working tree"""
+def step_extract(ctx, only=None):
+    """tie G: regenerate QuicModel/Generated/*.lean from /repo's working tree.
+    `only`: names of tools/extractors modules relevant for this property (None = all)."""
     import extract
-    rep = extract.main(REPO, os.path.join(LEAN_DIR, "QuicModel", "Generated"))
+    import regen
+    regen.main()
+    rep = extract.main(REPO, os.path.join(LEAN_DIR, "QuicModel", "Generated"), only)
     ctx.extra["generated"] = rep
+    ctx.oblige("extract", "tools/extract.py found every curated item in /repo" + (f" ({', '.join(only)})" if only else ""),
+               not rep["failed"], "; ".join(rep["failed"]))
     return rep
 
 
